@@ -202,7 +202,7 @@ def part_goals(ctx, s, gi, p, fb, names, hess_pairs, tag):
 
 
 def arith(cid, expr, y, tol, meta):
-    return (cid, le(expr, y, tol), "cbv [grad_total hess_total hessp_total row_dot gauss_grad gauss_hess %s]; %s" % (LISTF, IP), meta)
+    return (cid, le(expr, y, tol), "cbv [grad_total hess_total hessp_total row_dot gauss_grad gauss_hess gauss_cell gauss_cell_grad gauss_cell_hess %s]; %s" % (LISTF, IP), meta)
 
 
 # ----------------------------------------------------------------------------- one scenario
@@ -267,15 +267,33 @@ def run_scenario(ctx, rnd, s, opts):
         records.append({"scenario": s.sid, "model": s.model, "group": gi, "batch": b0, "params": x, "names": names,
                         "grad": p.grad, "hess": p.hess.tolist(), "nll": p.nll_g})
     # ---- totals
-    cs = {k: (float(cfg.vm.get(k)), float(mu), float(sg)) for k, (mu, sg) in s.gc.items()}
-    cexpr = lambda k: "(%s, %s, %s)" % tuple(Rq(t) for t in cs[names[k]])
+    # Gaussian constraints per VARIABLE CELL: a constraint keyed by a tied (var_equal) name acts on the trainable
+    # name of its group (all names of a group share one variable); several constraints on one cell add up
+    cell = {}
+    for grp in (s.cfg["constrains"].get("var_equal") or []):
+        heads = [n for n in grp if n in names]
+        for n in grp:
+            if heads:
+                cell[n] = heads[0]
+    cs = {}
+    for k_, (mu, sg) in s.gc.items():
+        tn = k_ if k_ in names else cell.get(k_)
+        if tn is not None:
+            cs.setdefault(tn, []).append((float(cfg.vm.get(k_)), float(mu), float(sg), k_))
+    for tn, lst in cs.items():
+        ctx.count("gauss_on_cell:%d" % len(lst))
+        for c in lst:
+            ctx.count("gauss_key:" + ("trainable name" if c[3] == tn else "tied non-head name"))
+    cms = lambda k: "[" + "; ".join("(%s, %s)" % (Rq(c[1]), Rq(c[2])) for c in cs[names[k]]) + "]"
+    cgexpr = lambda k: "gauss_cell_grad %s %s" % (Rq(cs[names[k]][0][0]), cms(k))
+    chexpr = lambda k: "gauss_cell_hess %s %s" % (Rq(cs[names[k]][0][0]), cms(k))
     tot_call = float(fcn(x))
     nll_g, g_tot = fcn.nll_grad(x); g_tot = arr(g_tot)
     nll_h, g_h, h_tot = fcn.nll_grad_hessian(x); h_tot = np.array(h_tot, dtype=np.float64); g_h = arr(g_h)
     pvec = [round(rnd.uniform(-1, 1), 3) for _ in range(K)]
-    # FCN.grad_hessp of the cfit family is an OPEN known finding (F13: it inherits the default-likelihood
-    # grad_hessp_batch); it is probed by the fixed reproducer stream f13_probe, not here.
-    do_hessp = s.model not in CFIT_LIKE
+    # FCN.grad_hessp of EVERY model (F13, the cfit family returning the default-likelihood H.p, is repaired by
+    # fix_C07/patch_1: the former fixed reproducer stream is now the regular P / PG cases of the cfit-like models)
+    do_hessp = True
     if do_hessp:
         g_p, hp = fcn.grad_hessp(xl, np.array(pvec)); g_p = arr(g_p); hp = arr(hp)
         fcn.vm.set_all(x)
@@ -290,14 +308,14 @@ def run_scenario(ctx, rnd, s, opts):
     hsc = float(np.max(np.abs(h_tot))) + sum(float(np.max(np.abs(p.hess))) for p in parts)
     cases.append(arith(tag + "_TSYM", Rq(hsym), 0.0, ATOL + RTOL * hsc, meta("hessian", site + ".nll_grad_hessian (symmetry)")))
     for k in range(K):
-        cg = "gauss_grad %s" % cexpr(k) if names[k] in cs else "0"
+        cg = cgexpr(k) if names[k] in cs else "0"
         cases.append(arith(tag + "_TG%d" % k, "grad_total (rsum %s) (%s)" % (Rlist([p.grad[k] for p in parts]), cg), g_tot[k], ATOL + RTOL * gsc,
                            meta("gradient", site + ".nll_grad (sum of parts + constraint)", param=names[k])))
         cases.append(arith(tag + "_TGH%d" % k, Rq(g_h[k]), g_tot[k], ATOL + RTOL * gsc, meta("gradient", site + ".nll_grad_hessian gradient", param=names[k])))
         if do_hessp:
             cases.append(arith(tag + "_PG%d" % k, Rq(g_p[k]), g_tot[k], ATOL + RTOL * gsc, meta("gradient", site + ".grad_hessp gradient", param=names[k])))
         for l in range(k, K):
-            ch = "gauss_hess %s" % cexpr(k) if names[k] in cs else "0"
+            ch = chexpr(k) if names[k] in cs else "0"
             cases.append(arith(tag + "_TH%d_%d" % (k, l), "hess_total (rsum %s) (%s) %s" % (Rlist([float(p.hess[k][l]) for p in parts]), ch, "true" if k == l else "false"),
                                float(h_tot[k][l]), ATOL + RTOL * hsc, meta("hessian", site + ".nll_grad_hessian (sum of parts + constraint)", param=(names[k], names[l]))))
         # H.p : row k of the implementation's own total Hessian (already tied above) times p
@@ -396,7 +414,7 @@ def bound_cases(ctx, rnd, s, cfg, fcn, names, x):
         nll_y, g_y = fcn.nll_grad(ys); g_y = arr(g_y)
         nll_yh, g_yh, h_y = fcn.nll_grad_hessian(ys); h_y = np.array(h_y, dtype=np.float64)
         pvec = np.array([round(rnd.uniform(-1, 1), 3) for _ in range(K)])
-        do_hessp = s.model not in CFIT_LIKE
+        do_hessp = True
         if do_hessp:
             g_yp, hp_y = fcn.grad_hessp(ys, pvec * dy); hp_y = arr(hp_y)
         # wrappers
@@ -454,43 +472,172 @@ def plan(ctx, rnd):
     # resolution_size > 1 (default/extended Model and Model_cfit): gradient, Hessian, value-alongside, batches of whole events
     for m, R in ((("default", 2), ("cfit", 3)) if quick else (("default", 2), ("default", 3), ("extended", 2), ("cfit", 3), ("cfit", 2))):
         sc.append((sid, m, 1, True, {"fd": False, "bounds": False, "all_batches": True, "tie": False, "hess_batches": True, "R": R})); sid += 1
-    # fixed reproducer stream of the open known finding F13 (independent of the seed)
-    for i, m in enumerate(("cfit", "cfit_cached", "cfit_extended", "simple_cfit")):
-        sc.append((900 + i, m, 1, False, {"f13": True}))
+    # event densities below the clip threshold 1e-6 and a zero event weight: value alongside = stand-alone value,
+    # gradient / Hessian = finite differences of the stand-alone value / of the gradient (no per-event tie)
+    # (kinds: "low" = one event below the threshold, "zero" = one event of weight 0, "both")
+    for m, kind in ((("cfit", "low"), ("cfit", "zero"), ("cfit_extended", "both"), ("default", "both")) if quick else
+                    (("cfit", "low"), ("cfit", "zero"), ("cfit", "both"), ("cfit_extended", "low"), ("cfit_extended", "both"), ("cfit_cached", "low"),
+                     ("cfit_cached", "zero"), ("default", "both"), ("extended", "both"))):
+        sc.append((sid, m, 1, True, {"lowdens": kind})); sid += 1
+    # fit_improve.Cached_FG, the wrapper that hands (value, gradient) to the optimisers
+    sc.append((sid, "cached_fg", 0, False, {"cached_fg": True})); sid += 1
     only = os.environ.get("VERIF_ONLY")
     if only:
         sc = [x for x in sc if x[1] in only.split(",")]
     return sc
 
 
-F13_SITE = "FCN.grad_hessp for the cfit family (inherits the default-likelihood grad_hessp_batch)"
-F13_FP = "cfit_family:grad_hessp"
+# ----------------------------------------------------------------------------- low densities / zero weight
 
-
-def f13_probe(acc, sid, m):
-    """deterministic reproducer of F13: FCN.grad_hessp(x, p) vs FCN.nll_grad gradient and FCN.nll_grad_hessian . p"""
+def lowdens_cases(ctx, rnd, s):
+    """one data event with density below the clip threshold (tiny efficiency and background value for the cfit family,
+    all couplings scaled down for default / extended) and one data event with weight exactly 0"""
     from tf_pwa.config_loader import ConfigLoader
-    rnd = random.Random(1313 + sid)
-    s = make_scenario(acc, rnd, sid, m, 1, False, {"tie": False})
+    out = []
     cfg = ConfigLoader(s.cfg)
-    fcn = cfg.get_fcn(batch=7)
+    N = s.nd[0] + s.nb[0]
+    b0 = rnd.choice([3, N - 1, N, N + 5])
+    amp = cfg.get_amplitude()
+    x = c06.random_point(rnd, cfg.vm)
+    fcn = cfg.get_fcn(batch=b0)
     names = list(cfg.vm.trainable_vars)
-    x = [float(cfg.vm.get(n)) for n in names]
-    p = np.array([0.3, -0.7, 0.5, 0.2, 0.1, -0.4][: len(x)])
-    g = np.array(fcn.nll_grad(x)[1], dtype=np.float64)
-    h = np.array(fcn.nll_grad_hessian(x)[2], dtype=np.float64)
-    gp, hp = fcn.grad_hessp(x, p)
-    gp, hp = np.array(gp, dtype=np.float64), np.array(hp, dtype=np.float64)
-    acc.evaluations += 3
-    acc.count("f13_reproducer:" + m)
-    bad_g = float(np.max(np.abs(gp - g))) > 1e-6 * (float(np.max(np.abs(g))) + 1)
-    bad_h = float(np.max(np.abs(hp - h @ p))) > 1e-6 * (float(np.max(np.abs(h @ p))) + 1)
-    if bad_g or bad_h:
-        acc.fail("hessp", "f13_%s" % m, "FCN.grad_hessp of model %s returns the default-likelihood gradient / H.p: grad_hessp grad %s vs nll_grad grad %s; "
-                 "H.p %s vs nll_grad_hessian.p %s" % (m, np.round(gp, 6).tolist(), np.round(g, 6).tolist(), np.round(hp, 6).tolist(), np.round(h @ p, 6).tolist()),
-                 site=F13_SITE, fingerprint=F13_FP,
-                 failing_input={"config": s.cfg, "params": dict(zip(names, x)), "p": p.tolist(), "grad_hessp": [gp.tolist(), hp.tolist()],
-                                "nll_grad_gradient": g.tolist(), "nll_grad_hessian_times_p": (h @ p).tolist()})
+    K = len(names)
+    assert set(x) == set(names)
+    fixed = {}
+    cfg.vm.set_all(x)
+    if s.model not in CFIT_LIKE:
+        # all couplings (the fixed reference one too) are scaled by a common factor such that the MEDIAN event density
+        # is 1e-6: about half of the events are below the clip threshold, half above
+        fixed = {n: float(cfg.vm.get(n)) for n in cfg.vm.variables if n.endswith("_total_0r") and n not in names}
+        med = float(np.median(np.array(amp(fcn.data), dtype=np.float64)))
+        sc = math.sqrt(1e-6 / med)
+        fixed = {n: v * sc for n, v in fixed.items()}
+        x = {n: (v * sc if n.endswith("_total_0r") else v) for n, v in x.items()}
+        for n, v in fixed.items():
+            cfg.vm.set(n, v)
+        cfg.vm.set_all(x)
+    xl = [float(cfg.vm.get(n)) for n in names]
+    # how many event densities are below the threshold (harness-side count, for the distribution only)
+    if s.model in CFIT_LIKE:
+        fvals = np.array(amp(fcn.data), dtype=np.float64) * np.array(arr(fcn.data.get("eff_value", np.ones(N))))
+        gvals = np.array(amp(fcn.mcdata), dtype=np.float64) * np.array(arr(fcn.mcdata.get("eff_value", np.ones(len(arr(fcn.mc_weight))))))
+        dens = (1 - s.fb[0]) * fvals / float(np.dot(arr(fcn.mc_weight), gvals)) + s.fb[0] * np.array(arr(fcn.data.get("bg_value", np.ones(N)))) / \
+            float(np.dot(arr(fcn.mc_weight), arr(fcn.mcdata.get("bg_value", np.ones(len(gvals))))))
+    else:
+        dens = np.array(amp(fcn.data), dtype=np.float64)
+    nlow = int(np.sum(dens < 1e-6))
+    ctx.count("lowdens:events below 1e-6:%s" % ("0" if nlow == 0 else "1" if nlow == 1 else "several"))
+    ctx.count("lowdens:zero weights:%d" % int(np.sum(np.array(arr(fcn.weight)) == 0.0)))
+    ctx.count("model:" + s.model + " (low density)")
+    fv = lambda xx: float(fcn(list(xx)))
+    gv = lambda xx: np.array(fcn.nll_grad(list(xx))[1], dtype=np.float64)
+    v_call = fv(xl)
+    v_g, g = fcn.nll_grad(xl); v_g = float(v_g); g = np.array(g, dtype=np.float64)
+    v_h, g_h, h = fcn.nll_grad_hessian(xl); v_h = float(v_h); g_h = np.array(g_h, dtype=np.float64); h = np.array(h, dtype=np.float64)
+    pvec = np.array([round(rnd.uniform(-1, 1), 3) for _ in range(K)])
+    g_p, hp = fcn.grad_hessp(xl, pvec); g_p = np.array(g_p, dtype=np.float64); hp = np.array(hp, dtype=np.float64)
+    cfg.vm.set_all(x)
+    f2 = cfg.get_fcn(batch=rnd.choice([b for b in (1, 3, N - 1, N, N + 5) if b != b0]))
+    v_b, g_b = f2.nll_grad(xl); v_b = float(v_b); g_b = np.array(g_b, dtype=np.float64)
+    ctx.evaluations += 6
+    tag = "s%d_L" % s.sid
+    meta = lambda layer, st, **kw: dict({"layer": layer, "site": st, "model": s.model, "batch": b0, "scenario": s.sid, "lowdens": True}, **kw)
+    info = {"config": s.cfg, "params": dict(zip(names, xl)), "fixed_couplings_set": fixed, "batch": b0, "densities_below_1e-6": nlow,
+            "__call__": v_call, "nll_grad_value": v_g, "nll_grad_hessian_value": v_h}
+    vals = [v_call, v_g, v_h, v_b] + list(g) + list(h.reshape(-1)) + list(hp)
+    if not all(math.isfinite(t) for t in vals):
+        ctx.fail("value", tag + "_finite", "non-finite value / derivative with a low-density or zero-weight event: __call__ %r, nll_grad value %r, "
+                 "nll_grad_hessian value %r" % (v_call, v_g, v_h), site="FCN.__call__ / nll_grad (low density, zero weight)",
+                 fingerprint=s.model + ":lowdens_nonfinite", failing_input=info)
+        return out
+    vt = 1e-9 * (abs(v_call) + 1)
+    out.append(arith(tag + "_TV", Rq(v_g), v_call, vt, meta("value", "FCN.nll_grad value vs __call__ (density below the clip threshold)", case_info=info)))
+    out.append(arith(tag + "_TVH", Rq(v_h), v_call, vt, meta("value", "FCN.nll_grad_hessian value vs __call__ (density below the clip threshold)", case_info=info)))
+    out.append(arith(tag + "_BV", Rq(v_b), v_g, vt, meta("value", "nll_grad value (batch independence, low density)")))
+    # finite differences of the implementation's own stand-alone value / gradient (Richardson, error O(h^4))
+    g_fd = richardson_grad(fv, xl)
+    h_fd = np.array([richardson_grad(lambda xx, k=k: gv(xx)[k], xl) for k in range(K)])
+    cfg.vm.set_all(x)
+    ctx.evaluations += 4 * K * (K + 1)
+    gsc = float(np.max(np.abs(g))) + 1.0
+    hsc = float(np.max(np.abs(h))) + 1.0
+    for k in range(K):
+        out.append(arith(tag + "_FG%d" % k, Rq(float(g[k])), float(g_fd[k]), 2e-6 * gsc,
+                         meta("gradient", "FCN.nll_grad gradient vs finite differences of __call__ (low density)", param=names[k], case_info=info)))
+        out.append(arith(tag + "_GH%d" % k, Rq(float(g_h[k])), float(g[k]), ATOL + RTOL * gsc, meta("gradient", "nll_grad_hessian gradient vs nll_grad gradient (low density)", param=names[k])))
+        out.append(arith(tag + "_PG%d" % k, Rq(float(g_p[k])), float(g[k]), ATOL + RTOL * gsc, meta("gradient", "grad_hessp gradient vs nll_grad gradient (low density)", param=names[k])))
+        out.append(arith(tag + "_BG%d" % k, Rq(float(g_b[k])), float(g[k]), ATOL + RTOL * gsc, meta("gradient", "nll_grad gradient (batch independence, low density)", param=names[k])))
+        out.append(arith(tag + "_P%d" % k, "row_dot %s %s" % (Rlist(h[k]), Rlist(pvec)), float(hp[k]), ATOL + 10 * RTOL * (float(np.sum(np.abs(h[k] * pvec))) + hsc * 1e-3),
+                         meta("hessp", "FCN.grad_hessp (low density)", param=names[k])))
+        for l in range(K):
+            out.append(arith(tag + "_FH%d_%d" % (k, l), Rq(float(h[k][l])), float(h_fd[k][l]), 2e-5 * hsc,
+                             meta("hessian", "FCN.nll_grad_hessian vs finite differences of the nll_grad gradient (low density)", param=(names[k], names[l]))))
+    ctx.distinct.add((s.sid, "lowdens"))
+    return out
+
+
+# ----------------------------------------------------------------------------- fit_improve.Cached_FG
+
+def cached_fg_cases(ctx, rnd):
+    """Cached_FG(f_g) returns (scale f, scale g) of the wrapped function, caches them per point, and replaces NaN
+    gradient components by the central difference of f with step 1e-6 (Grad.fd_central)"""
+    from tf_pwa.fit_improve import Cached_FG
+    out = []
+    n_case = 8 if ctx.tier == "quick" else 40
+    for ci in range(n_case):
+        n = rnd.randrange(2, 5)
+        d = [round(rnd.uniform(-2, 2), 2) for _ in range(n)]
+        a = [round(rnd.uniform(-3, 3), 2) for _ in range(n)]
+        b = [round(rnd.uniform(-3, 3), 2) for _ in range(n)]
+        c = round(rnd.uniform(-5, 5), 2)
+        M = [[(round(rnd.uniform(-1, 1), 2) if j > i else 0.0) for j in range(n)] for i in range(n)]
+        x0 = [round(rnd.uniform(-2, 2), 3) for _ in range(n)]
+        nan_idx = sorted(rnd.sample(range(n), rnd.randrange(0, n + 1))) if ci else [n - 1]
+        scale = rnd.choice([1.0, 1.0, 0.5, 2.0])
+        Ms = np.array(M) + np.array(M).T
+
+        def f_g(x, d=d, a=a, b=b, c=c, Ms=Ms, nan_idx=nan_idx):
+            x = np.asarray(x, dtype=np.float64)
+            f = float(np.sum(np.array(d) * x ** 3 + np.array(a) * x ** 2 + np.array(b) * x) + c + 0.5 * x @ Ms @ x)
+            g = 3 * np.array(d) * x ** 2 + 2 * np.array(a) * x + np.array(b) + Ms @ x
+            g[nan_idx] = np.nan
+            return f, g
+        info = {"d": d, "a": a, "b": b, "c": c, "cross_terms": M, "x": x0, "nan_components": nan_idx, "grad_scale": scale,
+                "f": "sum d_i x_i^3 + a_i x_i^2 + b_i x_i + c + sum_{i<j} M_ij x_i x_j"}
+        site = "fit_improve.Cached_FG"
+        meta = lambda layer, **kw: dict({"layer": layer, "site": site, "model": "cached_fg", "scenario": "fg%d" % ci, "case_info": info}, **kw)
+        w = Cached_FG(f_g, grad_scale=scale)
+        fv, gv = w(np.array(x0)); gv = np.array(gv, dtype=np.float64)
+        w2 = Cached_FG(f_g)
+        f2 = w2.fun(np.array(x0))
+        try:
+            g2 = np.array(w2.grad(np.array(x0)), dtype=np.float64)
+        except Exception as e:
+            ctx.fail("gradient", "fg%d_grad" % ci, "Cached_FG.grad raised %r" % (e,), site=site + ".grad", fingerprint="cached_fg:raise", failing_input=info)
+            g2 = None
+        ctx.evaluations += 2
+        ctx.count("cached_fg:nan components:%d" % len(nan_idx)); ctx.count("cached_fg:grad_scale:%g" % scale)
+        ftrue = f_g(x0)[0]
+        fsc = abs(c) + sum(abs(d[i] * x0[i] ** 3) + abs(a[i] * x0[i] ** 2) + abs(b[i] * x0[i]) for i in range(n)) + float(np.sum(np.abs(np.array(M))) * 4) + 1
+        out.append(arith("fg%d_V" % ci, Rq(float(fv)), scale * ftrue, 1e-12 * fsc, meta("value")))
+        out.append(arith("fg%d_V2" % ci, Rq(float(f2)), ftrue, 1e-12 * fsc, meta("value")))
+        for i in range(n):
+            bi = b[i] + sum(Ms[i][j] * x0[j] for j in range(n) if j != i)
+            if i in nan_idx:  # central difference of the cubic restriction, certified in Coq from the definition
+                expr = "(fd_central (fun u => %s * (u * u * u) + %s * (u * u) + %s * u + 0) %s (1 / 1000000))" % (Rq(d[i]), Rq(a[i]), Rq(float(bi)), Rq(x0[i]))
+                tol = 3e-9 * fsc  # rounding of f(x+h) - f(x-h) divided by 2e-6
+            else:
+                expr = "(%s * (%s * %s) + %s * %s + %s)" % (Rq(3 * d[i]), Rq(x0[i]), Rq(x0[i]), Rq(2 * a[i]), Rq(x0[i]), Rq(float(bi)))
+                tol = 1e-12 * fsc
+            for nm, val, sc_ in ((("G", gv[i], scale), ("G2", g2[i], 1.0)) if g2 is not None else (("G", gv[i], scale),)):
+                if not math.isfinite(val):
+                    ctx.fail("gradient", "fg%d_%s%d" % (ci, nm, i), "Cached_FG returned a non-finite gradient component", site=site, fingerprint="cached_fg:nonfinite", failing_input=info)
+                    continue
+                out.append(("fg%d_%s%d" % (ci, nm, i), le("%s * %s" % (Rq(sc_), expr), float(val), tol * sc_),
+                            "cbv [fd_central]; interval with (i_prec 120)",
+                            meta("gradient", component=i, nan_repaired=(i in nan_idx), returned=float(val), wrapper=("__call__" if nm == "G" else "grad"))))
+        ctx.distinct.add(("cached_fg", ci))
+    return out
 
 
 class Acc(c06.Acc):
@@ -509,6 +656,28 @@ def make_scenario(acc, srnd, sid, m, ngroup, gauss, opts):
         s.cfg["particle"].pop("R_CD", None)
     if m in ("cached_amp", "cfit_cached"):
         s.cfg["particle"]["R_BC"]["float"] = "mg"
+    if opts.get("tie") and gauss:
+        # a Gaussian constraint keyed by the NON-HEAD name of the var_equal pair (same variable as the head);
+        # half of the time the head keeps its own constraint as well (two constraints on one variable)
+        head, other = s.cfg["constrains"]["var_equal"][0]
+        s.gc[other] = [round(srnd.uniform(0.5, 1.5), 3), round(srnd.uniform(0.05, 0.5), 3)]
+        if srnd.random() < 0.5:
+            s.gc.pop(head, None)
+        s.cfg["constrains"]["gauss_constr"] = {k: list(v) for k, v in s.gc.items()}
+    if opts.get("lowdens"):
+        nd = s.nd[0]
+        i_low, i_zero = srnd.sample(range(nd), 2)
+        d = s.cfg["data"]
+        kind = opts["lowdens"]
+        if m in CFIT_LIKE and kind in ("low", "both"):  # tiny efficiency and background value of one data event -> P_i of order 1e-9
+            for key in ("data_eff_value", "data_bg_value"):
+                v = np.loadtxt(d[key][0]).reshape(-1)
+                v[i_low] = 1e-9 * srnd.uniform(0.5, 2.0)
+                np.savetxt(d[key][0], v)
+        w = np.loadtxt(d["data_weight"][0]).reshape(-1) if "data_weight" in d else np.ones(nd)
+        if kind in ("zero", "both"):
+            w[i_zero] = 0.0
+        f = os.path.join(s.dir, "dw_lowdens.dat"); np.savetxt(f, w); d["data_weight"] = [f]
     return s
 
 
@@ -533,8 +702,11 @@ def _worker(args):
     res = {"item": item, "cases": [], "records": [], "error": None}
     try:
         with contextlib.redirect_stdout(io.StringIO()):
-            if opts.get("f13"):
-                f13_probe(acc, sid, m)
+            if opts.get("cached_fg"):
+                res["cases"] = cached_fg_cases(acc, srnd)
+            elif opts.get("lowdens"):
+                s = make_scenario(acc, srnd, sid, m, ngroup, gauss, opts)
+                res["cases"] = lowdens_cases(acc, srnd, s)
             else:
                 s = make_scenario(acc, srnd, sid, m, ngroup, gauss, opts)
                 res["cases"], res["records"] = run_scenario(acc, srnd, s, opts)
@@ -649,12 +821,14 @@ def run(ctx):
                 fi = {"check": "FCN.grad_hessp(x, p)[1][k] vs row k of FCN.nll_grad_hessian(x)[2] times p", "param": meta.get("param"), "p": meta["p"],
                       "hessp_reported": meta["hessp"], "H_row": meta["H_row"], "H_row_dot_p": float(np.dot(meta["H_row"], meta["p"])),
                       "gaussian_constraint(theta,mean,sigma)": meta.get("constraint"), "model": meta.get("model"), "scenario": meta.get("scenario")}
+            if fi is None and "case_info" in meta:
+                fi = dict(meta["case_info"], check=meta["site"], case=cid, param=meta.get("param"), returned=meta.get("returned"))
             if fi is None and "bound_case" in meta:
                 fi = dict(meta["bound_case"], check="VarsManager.trans_* wrapper vs chain rule on the implementation's own y-space gradient/Hessian",
                           case=cid, param=meta.get("param"))
             ctx.fail(meta["layer"], cid, "implementation value not within tolerance of the model (%s) [%s, model=%s, param=%s]"
                      % (res[cid], meta["site"], meta.get("model"), meta.get("param")),
-                     inp={k: (v if not isinstance(v, (list, tuple)) or len(v) < 12 else str(v)[:200]) for k, v in meta.items() if k != "bound_case"},
+                     inp={k: (v if not isinstance(v, (list, tuple)) or len(v) < 12 else str(v)[:200]) for k, v in meta.items() if k not in ("bound_case", "case_info")},
                      site=meta["site"], fingerprint="%s:%s" % (meta.get("model"), meta["layer"]), failing_input=fi)
     return common.finish(ctx, search=search, technique=TECHNIQUE, extra_assumptions=[
         "ORACLE: TensorFlow autodiff of the amplitude alone returns its partial derivatives (per-event f, d_k f, d_k d_l f are captured with tf.GradientTape); "
